@@ -42,6 +42,15 @@ def main(argv: list[str]) -> int:
 
         import subprocess
 
+        try:  # assertions about the machinery itself: fatal (a broken simulator decides nothing)
+            r = subprocess.run([sys.executable, os.path.abspath(__file__), "selftest-unit"], capture_output=True, text=True, timeout=180)
+            print((r.stdout.strip().splitlines() or ["selftest-unit: no output"])[-1])
+            if r.returncode != 0:
+                print(r.stdout[-1500:], r.stderr[-1500:])
+                return 2
+        except subprocess.TimeoutExpired:
+            print("selftest-unit: timed out")
+            return 2
         try:  # fake-vs-real distributed conformance: reported, never fatal
             r = subprocess.run([sys.executable, os.path.abspath(__file__), "selftest-conformance"], capture_output=True, text=True, timeout=180)
             print((r.stdout.strip().splitlines() or ["selftest-conformance: no output"])[-1])
